@@ -161,12 +161,18 @@ func TestC17(t *testing.T) {
 		case 0:
 		case 1:
 			tc = &tls.Config{ServerName: "caller-name.example", NextProtos: []string{"h2"}}
+			if rapid.Bool().Draw(t, "tc_max_tls12") {
+				tc.MaxVersion = tls.VersionTLS12 // whatever the caller's version bounds, RequireECH is RequireECH
+			}
 			cl = append(cl, "caller_server_name")
 		case 2:
 			callerList = []byte("CALLER-ECH-LIST")
 			tc = &tls.Config{EncryptedClientHelloConfigList: callerList, MinVersion: tls.VersionTLS13}
 		default:
 			tc = &tls.Config{NextProtos: []string{"h2", "http/1.1"}, MinVersion: tls.VersionTLS13, RootCAs: x509.NewCertPool()}
+			if rapid.IntRange(0, 2).Draw(t, "tc_version_cap") == 0 {
+				tc.MinVersion, tc.MaxVersion = 0, tls.VersionTLS12
+			}
 			if rapid.Bool().Draw(t, "tc_both") {
 				tc.ServerName = "caller-name.example"
 				callerList = []byte("CALLER-ECH-LIST")
@@ -430,7 +436,7 @@ func TestC17(t *testing.T) {
 		// (f) caller config untouched
 		if tc != nil {
 			if tc.ServerName != snapshot.ServerName || !bytes.Equal(tc.EncryptedClientHelloConfigList, snapshot.EncryptedClientHelloConfigList) || (tc.EncryptedClientHelloConfigList == nil) != (snapshot.EncryptedClientHelloConfigList == nil) ||
-				fmt.Sprint(tc.NextProtos) != fmt.Sprint(snapshot.NextProtos) || tc.MinVersion != snapshot.MinVersion || tc.RootCAs != snapshot.RootCAs || tc.InsecureSkipVerify != snapshot.InsecureSkipVerify {
+				fmt.Sprint(tc.NextProtos) != fmt.Sprint(snapshot.NextProtos) || tc.MinVersion != snapshot.MinVersion || tc.MaxVersion != snapshot.MaxVersion || tc.RootCAs != snapshot.RootCAs || tc.InsecureSkipVerify != snapshot.InsecureSkipVerify {
 				ev.Violation(t, "C17", rp, "Dial modified the caller's tls.Config")
 			}
 		}
